@@ -1,6 +1,7 @@
 """C05 - referrer lists and the invalid-reference report: every edit of a reference element's text and every insertion /
 removal of a subtree that may contain references is paired with the matching edit of reference_origins; no list is
 silently overwritten; the report and the resolver apply the same tests."""
+import re
 from ir import Program, callee_of, has_field
 from flow import origins, is_local_op, call_matches, must_pass, iter_uses, forward_taint, resolve_place, source_names
 import events as E
@@ -374,12 +375,21 @@ def run(ctx):
                                 tgt_ok = True
         st['verify on target type'] = tgt_ok
         return st
-    c1, c2 = cols(cr), cols(gt)
+    def cols_any(b0):
+        """the columns hold if they hold in the function or in one of its closures (a predicate moved into `filter(|r| ..)`)"""
+        res = None
+        for x in P.with_closures(b0):
+            c_ = cols(x)
+            res = c_ if res is None else {k: (res[k] or c_[k]) for k in res}
+        return res
+    c1, c2 = cols_any(cr), cols_any(gt)
     for col in c1:
         C.check(c1[col] and c2[col], 'C05-SIB-report', col, 'check_references (%s) and get_reference_target (%s) no longer both apply: %s' % (c1[col], c2[col], col),
                 sample={'column': col, 'check_references': c1[col], 'get_reference_target': c2[col]})
     # a failed verification is reported: a report site is reachable from the verification call before the next referrer is examined
     vcr = calls(cr, r'ElementType::verify_reference_dest$')
+    if not vcr and any(calls(x, r'ElementType::verify_reference_dest$') for x in P.closures_of(cr)):
+        C.ok('C05-SIB-report', 'check_references|failed-verification-is-reported', 'the verification is part of a filter predicate (see the filter form below)')
     if vcr:
         pushes = [pos for pos, tt in cr.iter_calls() if call_matches(tt, r'Vec::<.*>::push$')]
         ok = any(p in cr.reach_from(vcr[0], avoid=E.loops_containing(cr, vcr)) for p in pushes)
@@ -404,7 +414,23 @@ def run(ctx):
     def smallest_loop(pos):
         ls = [(h, body) for h, body in loops if pos[0] in body]
         return min(ls, key=lambda x: len(x[1])) if ls else None
-    if not dest_reads or not lookups or not reports:
+    # filter form: `broken.extend(list.iter().filter(|r| <DEST read + verification>).cloned())`: the examination of a referrer is the predicate
+    # of a filter in the chain of a report; what the predicate lets through is reported, there is no path "examined but neither"
+    filter_form = False
+    if not dest_reads and reports:
+        for rp in reports:
+            trp = cr.blocks[rp[0]]['term']
+            if len(trp['args']) > 1 and is_local_op(trp['args'][1]):
+                from flow import deep_sources as _dsf
+                cs_f = _dsf(cr, trp['args'][1], depth=16)[1]
+                if any(re.search(r'Iterator>?::filter$', c or '') for c in cs_f) and any((c or '').endswith('verify_reference_dest') for c in cs_f) and c1.get('DEST attribute read'):
+                    filter_form = True
+    if filter_form and lookups:
+        outer = smallest_loop(lookups[0])
+        ok_b = outer is not None and must_pass(cr, lookups[0], [(outer[0], 0)], through=set(reports), include_start=False)
+        C.ok('C05-SIB-report', 'check_references|missing-or-wrong-DEST-is-reported', 'filter form: the DEST read and the verification are the predicate of a filter whose survivors are reported')
+        C.check(ok_b, 'C05-SIB-report', 'check_references|missing-or-dead-target-is-reported', 'check_references can go on to the next target path without reporting the referrers of a path that is not in the index (or whose element is gone) and without examining them', cr.where(lookups[0]))
+    elif not dest_reads or not lookups or not reports:
         C.anchor_missing('C05-SIB-report', 'check_references: DEST read / target lookup / report sites')
     else:
         inner = smallest_loop(dest_reads[0])
